@@ -17,7 +17,7 @@ class _Hang(Exception):
 
 
 DIRECT = ['fast', 'slow', 'refused', 'hang', 'init-fail', 'no-address']
-INDIRECT = ['pierce-fast', 'pierce-slow', 'cannot', 'nothing', 'server-down']
+INDIRECT = ['pierce-fast', 'pierce-slow', 'cannot', 'nothing', 'server-down', 'server-reconnecting']
 
 _creator_hook = False
 _registry_checks = [0]
@@ -126,6 +126,8 @@ def c11_params(rng: random.Random, cell: Optional[dict] = None) -> dict:
     # the peer pierces twice with the same ticket (two connections, same instant or a few ms apart)
     p['dup_pierce'] = xr.choice([None, None, None, None, 0.0, 0.0, 0.002]) if p['indirect'] in ('pierce-fast', 'pierce-slow') else None
     p['also_pierce'] = None
+    # how far into the reconnect attempt the request is made
+    p['reconnect_phase'] = xr.choice([0.0, 0.0, 0.5, 3.0]) if p['indirect'] == 'server-reconnecting' else 0.0
     for k in ('dup_pierce', 'my_listen', 'pierce_init_delay', 'omit_obf_fields', 'also_pierce'):
         if cell and k in cell:
             p[k] = cell[k]
@@ -150,7 +152,10 @@ def run_c11_case(res: dict, params: dict, seed: Any, judge_c10: bool = False, ju
         w.server.omit_obfuscated_fields = bool(p.get('omit_obf_fields'))
         my_listen = p.get('my_listen', 'both')
         if my_listen == 'both':
-            me = await w.add_client('me')
+            st = w.make_settings('me')
+            # the watchdog that reconnects to the server is armed when the server connection comes up
+            st.network.server.reconnect.auto = p['indirect'] == 'server-reconnecting'
+            me = await w.add_client('me', st)
         else:
             from aioslsk.settings import ListeningSettings, NetworkSettings, ServerSettings, UpnpSettings
             cport, oport = w.alloc_ports()
@@ -159,6 +164,7 @@ def run_c11_case(res: dict, params: dict, seed: Any, judge_c10: bool = False, ju
                 listening=ListeningSettings(error_mode='any', port=cport if my_listen == 'clear-only' else 0,
                                             obfuscated_port=oport if my_listen == 'obf-only' else 0),
                 upnp=UpnpSettings(enabled=False))
+            net_settings.server.reconnect.auto = p['indirect'] == 'server-reconnecting'
             me = await w.add_client('me', w.make_settings('me', port=cport, obf_port=oport, network=net_settings))
         me.client.settings.network.peer.connect_mode = PeerConnectMode.RACE if p['mode'] == 'race' else PeerConnectMode.FALLBACK
         me.client.settings.network.peer.obfuscate = p['prefer_obf']
@@ -166,7 +172,8 @@ def run_c11_case(res: dict, params: dict, seed: Any, judge_c10: bool = False, ju
         await settle(0.5)
         net = me.client.network
         bob_ports = {x for x in (bob.port, bob.obf_port) if x}
-        state = {'ctp': None, 'pierce_accepting': asyncio.Event(), 'direct_connected': asyncio.Event()}
+        state = {'ctp': None, 'pierce_accepting': asyncio.Event(), 'direct_connected': asyncio.Event(),
+                 'server_lost': False}
         if p.get('rendezvous'):
             # rendezvous of the two paths at a known phase, then a swept number of loop steps
             orig_accepted = net.on_peer_accepted
@@ -178,6 +185,9 @@ def run_c11_case(res: dict, params: dict, seed: Any, judge_c10: bool = False, ju
 
         def planner(node, host, port, attempt):
             plan = ConnPlan(latency=0.005, seg='random')
+            if node == 'me' and port == w.server.port and state['server_lost']:
+                plan.connect = 'hang'       # the server is unreachable: every reconnect attempt runs into its timeout
+                return plan
             if p.get('same_instant'):
                 plan = ConnPlan(latency=0.0, seg='whole', seg_lat=(0.0, 0.0))
                 if node == 'me' and port in bob_ports:
@@ -252,6 +262,20 @@ def run_c11_case(res: dict, params: dict, seed: Any, judge_c10: bool = False, ju
             s = w.server.session_of('me')
             s.close('rst')
             await yields(3)
+        elif p['indirect'] == 'server-reconnecting':
+            # the server link is lost and the client is in the middle of an attempt to get it back: the server
+            # connection exists but is not open, so whatever the request sends to the server fails at once
+            state['server_lost'] = True
+            w.server.session_of('me').close('rst')
+            for _ in range(4000):
+                if net.server_connection.state == ConnectionState.CONNECTING:
+                    break
+                await asyncio.sleep(0.01)
+            else:
+                w.harness_error('c11 server-reconnecting', 'the client never started a reconnect attempt')
+            await asyncio.sleep(p.get('reconnect_phase', 0.0))
+            obs['requests_while_server_reconnecting'] = obs.get('requests_while_server_reconnecting', 0) + (
+                net.server_connection.state == ConnectionState.CONNECTING)
 
         obs['requests'] += 1
         t_call = w.now
@@ -299,7 +323,7 @@ def run_c11_case(res: dict, params: dict, seed: Any, judge_c10: bool = False, ju
                          {'params': p, 'went_on_for_virtual_s': round(t_ret - t_cancel, 3)}))
         if cancelled:
             obs['cancellations_judged'] = obs.get('cancellations_judged', 0) + 1
-        server_up = p['indirect'] != 'server-down'
+        server_up = p['indirect'] not in ('server-down', 'server-reconnecting')
         direct_works = p['direct'] in ('fast', 'slow') and (server_up or False)
         # GetPeerAddress needs the server too
         indirect_works = p['indirect'] in ('pierce-fast', 'pierce-slow') and server_up
@@ -655,6 +679,9 @@ def run_c10_endings_case(res: dict, rng: random.Random, seed: Any):
     # an application listener for connection state changes that suspends (listeners are public API): none,
     # k loop steps, or a sleep
     app_listener = rng.choice([None, None, ['y', 1], ['y', 3], ['t', 0.05]])
+    # the last act: Network.disconnect() while another task opens a connection (None: plain stop)
+    overlap = rng.choice([None, None, {'what': rng.choice(['request', 'request', 'dial-in']), 'typ': rng.choice(['P', 'D', 'F']),
+                                       'after': rng.choice([['y', k] for k in range(0, 8)] + [['t', 0.001], ['t', 0.01]])}])
 
     async def main(w: World):
         from aioslsk.exceptions import ConnectionWriteError, PeerConnectionError
@@ -886,6 +913,40 @@ def run_c10_endings_case(res: dict, rng: random.Random, seed: Any):
             await settle(0.1)
             if link.conn.written[d] != n0:
                 viol.append(('send-succeeded-after-closed', {'spec': _pub2(sp)}))
+        if overlap is not None:
+            # Network.disconnect() closes what is registered when it is called; a connection that another task
+            # registers while disconnect() is suspended (a request with a known address, a peer dialling in) is
+            # opened as usual and has to be in the registry for as long as it is open
+            carol = await w.add_peer('carol')
+            await settle(0.2)
+            obs['disconnect_overlaps'] = obs.get('disconnect_overlaps', 0) + 1
+            dtask = w.spawn('me', net.disconnect(), name='vf-c10-network-disconnect')
+            how, amount = overlap['after']
+            if how == 'y':
+                for _ in range(amount):
+                    await asyncio.sleep(0)
+            else:
+                await asyncio.sleep(amount)
+            new_conn = None
+            if overlap['what'] == 'request':
+                try:
+                    new_conn = await me.call(net.create_peer_connection(
+                        'carol', overlap['typ'], ip=w.net.ip_of('carol'), port=carol.port))
+                except PeerConnectionError:
+                    new_conn = None
+            else:
+                try:
+                    await carol.dial(me.port, overlap['typ'], host=w.net.ip_of('me'), manual=True)
+                except (ConnectionError, OSError):
+                    pass
+            await asyncio.gather(dtask, return_exceptions=True)
+            await settle(1.0)
+            if new_conn is not None and new_conn.state == ConnectionState.CONNECTED:
+                obs['opened_during_disconnect'] = obs.get('opened_during_disconnect', 0) + 1
+                if new_conn not in net.peer_connections:
+                    viol.append(('registry:connection-opened-during-network-disconnect-not-registered',
+                                 {'overlap': overlap, 'state': new_conn.state.name}))
+            obs['registry_items'] += registry_check(w, me, viol, 'after-network-disconnect', cm=cm)
         await w.stop_clients()
         await settle(6.0)
         return results
@@ -913,7 +974,8 @@ def run_c10_endings_case(res: dict, rng: random.Random, seed: Any):
         runner.add_cover(res, 'c10_inits', f"{s['direction']}:{s['init']}")
         runner.add_cover(res, 'c10_endings', s['ending'])
     runner.add_cover(res, 'c10_app_listener', str(app_listener))
-    res['sample'] = {'kind': 'endings', 'specs': [_pub2(s) for s in specs], 'app_listener': app_listener, 'result': out.result,
+    runner.add_cover(res, 'c10_disconnect_overlap', 'none' if overlap is None else f"{overlap['what']}:{overlap['after']}")
+    res['sample'] = {'kind': 'endings', 'specs': [_pub2(s) for s in specs], 'app_listener': app_listener, 'overlap': overlap, 'result': out.result,
                      'streams': [[s[1] for s in st] for st in list(cm.streams.values())[:8]]}
 
 
